@@ -528,5 +528,48 @@ def rule_accum(c: Ctx) -> RuleResult:
                 r.add(key, c.where(f, bad), f.short, U(bad)[:80], "violation",
                       f"the accumulator `{name}` is overwritten inside the loop that builds it: everything collected so far since the last "
                       f"flush is dropped")
+    # table rows are cut at pipes only by the escape-aware splitter: no other operation of the table module removes, splits at or
+    # replaces a '|' (a regex or str method cannot tell `\|` - an escaped, literal pipe - from a column separator)
+    tmods = [m for m in c.p.modules.values() if m.rel == "rules_block/table.py"]
+    regs = {name: pat for (mod, name, pat, flags, node) in c.p.regex_constants() if name and mod in tmods}
+    npipe = 0
+    for f in sorted(c.p.all_funcs(), key=lambda x: x.qual):
+        if f.module not in tmods:
+            continue
+        for x in own_nodes(f.node):
+            if not (isinstance(x, ast.Call) and isinstance(x.func, ast.Attribute)):
+                continue
+            meth = x.func.attr
+            why = ""
+            if meth in ("sub", "subn", "split") and isinstance(x.func.value, ast.Name) and x.func.value.id in regs and "|" in regs[x.func.value.id].replace("\\|", "").replace("[|", "[") + ("|" if "\\|" in regs[x.func.value.id] else ""):
+                if "\\|" in regs[x.func.value.id] or "[|" in regs[x.func.value.id]:
+                    why = f"the regex {x.func.value.id} = {regs[x.func.value.id]!r}, which matches a literal '|', is applied with .{meth}()"
+            if meth in ("split", "rsplit", "strip", "lstrip", "rstrip", "replace", "partition", "rpartition", "removeprefix", "removesuffix") \
+                    and any(isinstance(a, ast.Constant) and isinstance(a.value, str) and "|" in a.value for a in x.args):
+                why = f"str.{meth}({', '.join(U(a) for a in x.args)})"
+            if meth in ("sub", "subn", "split") and U(x.func.value) == "re" and x.args and isinstance(x.args[0], ast.Constant) \
+                    and isinstance(x.args[0].value, str) and ("\\|" in x.args[0].value or "[|" in x.args[0].value):
+                why = f"re.{meth}({x.args[0].value!r}, ...)"
+            if why and isinstance(x.func.value, ast.Name):
+                # the delimiter row (line start + 1) holds only | - : and blanks - the scan in front of it rejects anything else,
+                # so no backslash can occur in it
+                rds = list(Reaching(c.cfg(f)).at_ast(x, x.func.value.id))
+                if rds and all(d.kind == "assign" and isinstance(d.value, ast.Call) and U(d.value.func).split(".")[-1] == "getLine" and len(d.value.args) == 2
+                               and isinstance(d.value.args[1], ast.BinOp) and isinstance(d.value.args[1].op, ast.Add)
+                               and isinstance(d.value.args[1].right, ast.Constant) and d.value.args[1].right.value == 1 for d in rds):
+                    r.add(f"{f.short}|pipe-op|delimiter-row", c.where(f, x), f.short, U(x)[:70], "discharged",
+                          "the delimiter row consists of | - : and blanks only (validated character by character before): no escape can occur")
+                    why = ""
+            if why:
+                npipe += 1
+                r.add(f"{f.short}|pipe-op|{alpha(f, x)[:50]}", c.where(f, x), f.short, U(x)[:70], "violation",
+                      f"an escape-unaware operation on pipes in the table rule ({why}): an escaped pipe `\\|` at that position is treated as a "
+                      f"column separator and its cell text is lost")
+    es = [f for f in c.p.all_funcs() if f.module in tmods and f.name == "escapedSplit"]
+    if not es:
+        raise AnchorError("the escape-aware row splitter escapedSplit is gone from rules_block/table.py")
+    r.add("table|pipe-ops", c.where(es[0], es[0].node), es[0].short, "escapedSplit", "discharged" if npipe == 0 else "violation",
+          "rows are cut at pipes only by the escape-aware splitter (no regex / str operation on '|' in the table module)" if npipe == 0 else
+          f"{npipe} escape-unaware pipe operation(s) in the table module")
     r.floor = 1
     return r
